@@ -239,9 +239,9 @@ theorem questions_live (I : Idna) (buf : Bytes) (hsh : Shallow buf) : ∀ (k pos
             obtain ⟨rqs2, p2⟩ := rr
             simp [hrq] at hr
             obtain ⟨rfl, rfl⟩ := hr
-            obtain ⟨t, c1, hu, _, hca1, hnv1⟩ := name_live I buf hsh pos ls n cache hn (hpl _ (by simp)) hca hnv
-            obtain ⟨qs2, c2, hu2, hca2, hnv2⟩ := ih _ c1 rqs2 p hrq (fun rq hrq' => hpl rq (by simp [hrq'])) hca1 hnv1
-            exact ⟨_, c2, by simp [unpackQuestions, hu, ht, hc, hu2], hca2, hnv2⟩
+            obtain ⟨t, c1, hu, _, hca1, hnv1⟩ := name_live I buf hsh pos ls n cache hn (hpl ⟨ls, ty, cl⟩ (by simp)) hca hnv
+            obtain ⟨qs2, c2, hu2, hca2, hnv2⟩ := ih _ c1 rqs2 _ hrq (fun rq hrq' => hpl rq (by simp [hrq'])) hca1 hnv1
+            exact ⟨⟨t, ty, cl⟩ :: qs2, c2, by simp [unpackQuestions, hu, ht, hc, hu2], hca2, hnv2⟩
 
 theorem rrData_of_ref {buf : Bytes} {pos len ty : Nat} {d : Bytes} (h : DnsRef.rdata buf pos len ty = some d)
     (hle : pos + len ≤ buf.length) (hd : d.length ≤ 65535) : rrData buf pos len ty = some d := by
@@ -300,11 +300,11 @@ theorem records_live (I : Idna) (buf : Bytes) (hsh : Shallow buf) : ∀ (k pos :
                     obtain ⟨rrs2, p2⟩ := rr
                     simp [hrq] at hr
                     obtain ⟨rfl, rfl⟩ := hr
-                    obtain ⟨hpl1, hsz⟩ := hpl _ (by simp)
+                    obtain ⟨hpl1, hsz⟩ := hpl ⟨ls, ty, cl, ttl, d⟩ (by simp)
                     obtain ⟨t, c1, hu, _, hca1, hnv1⟩ := name_live I buf hsh pos ls n cache hn hpl1 hca hnv
                     have hdata := rrData_of_ref hrd (by omega) hsz
-                    obtain ⟨rs2, c2, hu2, hca2, hnv2⟩ := ih _ c1 rrs2 p hrq (fun rr hrr => hpl rr (by simp [hrr])) hca1 hnv1
-                    exact ⟨_, c2, by simp [unpackRRs, hu, ht, hc, httl, hl, hlen, hdata, hu2], hca2, hnv2⟩
+                    obtain ⟨rs2, c2, hu2, hca2, hnv2⟩ := ih _ c1 rrs2 _ hrq (fun rr hrr => hpl rr (by simp [hrr])) hca1 hnv1
+                    exact ⟨⟨t, ty, cl, ttl, d⟩ :: rs2, c2, by simp [unpackRRs, hu, ht, hc, httl, hl, hlen, hdata, hu2], hca2, hnv2⟩
 
 /-- a specification message whose owner and question names are made of plain labels and whose canonical record data
     fits the 16-bit length field -/
@@ -349,8 +349,148 @@ theorem unpack_live (I : Idna) (b : Bytes) (d : DnsRef.RMsg) (hd : DnsRef.decode
               obtain ⟨an, c2, u2, a2, v2⟩ := records_live I b hsh _ _ _ _ _ ha (fun r hr' => hpr r (by simp [hr'])) a1 v1
               obtain ⟨ns, c3, u3, a3, v3⟩ := records_live I b hsh _ _ _ _ _ hn (fun r hr' => hpr r (by simp [hr'])) a2 v2
               obtain ⟨ar, c4, u4, a4, v4⟩ := records_live I b hsh _ _ _ _ _ hr (fun r hr' => hpr r (by simp [hr'])) a3 v3
-              exact ⟨_, by simp [unpack, unpackFrom, h1, h2, h3, h4, h5, h6, u1, u2, u3, u4, hlen]⟩
+              simp [unpack, unpackFrom, h1, h2, h3, h4, h5, h6, u1, u2, u3, u4, hlen]
             · simp [hlen] at hd
   · cases hd
+
+/-! ### the specification's canonical RDATA is `rdataPlain` -/
+
+theorem plainName_wire (ls : List Bytes) (rest : Bytes) (hok : LabelsOk ls) :
+    plainName (wire ls ++ 0 :: rest) = .done ((wire ls).length + 1) := by
+  induction ls with
+  | nil => simp [wire, plainName_cons]
+  | cons l ls ih =>
+    obtain ⟨hne, hl⟩ := hok l (by simp)
+    have hpos : 0 < l.length := List.length_pos_iff.mpr hne
+    have htn : (UInt8.ofNat l.length).toNat = l.length := toNat_ofNat_lt (by omega)
+    rw [wire_cons]
+    simp only [List.cons_append, List.append_assoc]
+    rw [plainName_cons, htn]
+    have h1 : ¬ 192 ≤ l.length := by omega
+    have h2 : ¬ (64 ≤ l.length ∨ (l ++ (wire ls ++ 0 :: rest)).length < l.length) := by simp; omega
+    have h3 : ¬ l.length = 0 := by omega
+    simp only [h1, h2, h3, if_false]
+    rw [List.drop_left, ih (fun x hx => hok x (by simp [hx]))]
+    simp; omega
+
+theorem drop_append_of_length {α} {a b : List α} {k : Nat} (h : a.length = k) : (a ++ b).drop k = b := by
+  subst h; exact List.drop_left
+
+theorem rdataF_plain (buf : Bytes) : ∀ (L : List Field) (pos rem : Nat) (d : Bytes),
+    DnsRef.rdataF buf L pos rem = some d → pos + rem ≤ buf.length → plainWalk L d = true := by
+  intro L
+  induction L with
+  | nil => intro pos rem d _ _; simp [plainWalk]
+  | cons f fs ih =>
+    intro pos rem d h hle
+    cases f with
+    | name =>
+      simp only [DnsRef.rdataF] at h
+      cases hn : DnsRef.name buf pos with
+      | none => simp [hn] at h
+      | some r =>
+        obtain ⟨ls, n⟩ := r
+        simp only [hn] at h
+        by_cases hrem : rem < n
+        · simp [hrem] at h
+        · simp only [hrem, if_false] at h
+          cases hrest : DnsRef.rdataF buf fs (pos + n) (rem - n) with
+          | none => simp [hrest] at h
+          | some d' =>
+            simp [hrest] at h
+            subst h
+            have hok := name_labels_ok buf pos ls n hn
+            simp only [plainWalk]
+            have : wire ls ++ (0 :: d') = wire ls ++ 0 :: d' := rfl
+            rw [plainName_wire ls d' hok]
+            simp only
+            have hdrop : (wire ls ++ 0 :: d').drop ((wire ls).length + 1) = d' := by
+              have : wire ls ++ 0 :: d' = (wire ls ++ [0]) ++ d' := by simp
+              rw [this]
+              have hl : (wire ls ++ [0]).length = (wire ls).length + 1 := by simp
+              rw [← hl, List.drop_left]
+            rw [hdrop]
+            exact ih (pos + n) (rem - n) d' hrest (by omega)
+    | fixed k =>
+      simp only [DnsRef.rdataF] at h
+      by_cases hk : rem < k
+      · simp [hk] at h
+      · simp only [hk, if_false] at h
+        cases hrest : DnsRef.rdataF buf fs (pos + k) (rem - k) with
+        | none => simp [hrest] at h
+        | some d' =>
+          simp [hrest] at h
+          subst h
+          have hcl : ((buf.drop pos).take k).length = k := take_length_of_le (by omega)
+          simp only [plainWalk]
+          have hlen : ¬ ((buf.drop pos).take k ++ d').length < k := by simp [hcl]
+          simp only [hlen, if_false]
+          have : ((buf.drop pos).take k ++ d').drop k = d' := drop_append_of_length hcl
+          rw [this]
+          exact ih (pos + k) (rem - k) d' hrest (by omega)
+    | cstr =>
+      simp only [DnsRef.rdataF] at h
+      cases hbp : buf.drop pos with
+      | nil => simp [hbp] at h
+      | cons c tl =>
+        simp only [hbp] at h
+        by_cases hk : rem < 1 + c.toNat
+        · simp [hk] at h
+        · simp only [hk, if_false] at h
+          cases hrest : DnsRef.rdataF buf fs (pos + (1 + c.toNat)) (rem - (1 + c.toNat)) with
+          | none => simp [hrest] at h
+          | some d' =>
+            simp [hrest] at h
+            subst h
+            have hcl : ((c :: tl).take (1 + c.toNat)).length = 1 + c.toNat := by
+              rw [← hbp]; exact take_length_of_le (by omega)
+            have hchunk : (c :: tl).take (1 + c.toNat) = c :: tl.take c.toNat := by rw [Nat.add_comm]; rfl
+            rw [hchunk] at hcl ⊢
+            simp only [List.cons_append, plainWalk]
+            have hlen : ¬ (c :: (tl.take c.toNat ++ d')).length < 1 + c.toNat := by
+              have : (c :: (tl.take c.toNat ++ d')).length = (c :: tl.take c.toNat).length + d'.length := by simp; omega
+              rw [this, hcl]; omega
+            simp only [hlen, if_false]
+            have : (c :: (tl.take c.toNat ++ d')).drop (1 + c.toNat) = d' := by
+              have e : c :: (tl.take c.toNat ++ d') = (c :: tl.take c.toNat) ++ d' := rfl
+              rw [e]; exact drop_append_of_length hcl
+            rw [this]
+            exact ih _ _ d' hrest (by omega)
+
+theorem rdata_plain {buf : Bytes} {pos len ty : Nat} {d : Bytes} (h : DnsRef.rdata buf pos len ty = some d)
+    (hle : pos + len ≤ buf.length) : rdataPlain ty d = true := by
+  unfold DnsRef.rdata at h
+  unfold rdataPlain
+  rw [layout_agrees]
+  cases hL : DnsRef.layout ty with
+  | none => rfl
+  | some L => simp only [hL] at h ⊢; exact rdataF_plain buf L pos len d h hle
+
+/-! ### the precondition of delivery as a computation (tied to its Python twin by driver op `live`) -/
+
+def plainMsg (d : DnsRef.RMsg) : Bool :=
+  d.questions.all (fun q => plainLabels q.labels) &&
+  (d.answers ++ d.authorities ++ d.additionals).all (fun r => plainLabels r.labels && decide (r.rdata.length ≤ 65535))
+
+def shallowBuf (b : Bytes) : Bool := (List.range b.length).all (fun off => decide (hops b off ≤ maxPointerDepth))
+
+def liveCheck (b : Bytes) : Bool :=
+  match DnsRef.decode b with
+  | none => false
+  | some d => plainMsg d && shallowBuf b
+
+theorem hops_out_of_range (b : Bytes) (off : Nat) (h : b.length ≤ off) : hops b off = 0 := by
+  unfold hops; rw [hopsF_unfold, List.drop_eq_nil_of_le h, scanRaw_nil]
+
+theorem shallow_of_check (b : Bytes) (h : shallowBuf b = true) : Shallow b := by
+  intro off
+  by_cases ho : off < b.length
+  · simp only [shallowBuf, List.all_eq_true, List.mem_range, decide_eq_true_eq] at h
+    exact h off ho
+  · rw [hops_out_of_range b off (by omega)]; exact Nat.zero_le _
+
+theorem plain_of_check (d : DnsRef.RMsg) (h : plainMsg d = true) : Plain d := by
+  simp only [plainMsg, Bool.and_eq_true, List.all_eq_true, decide_eq_true_eq] at h
+  exact ⟨h.1, fun r hr => h.2 r hr⟩
 
 end MitmVerif.C26
